@@ -19,7 +19,9 @@
             (vm.ContractHasTryBlock) and the effective flags allow writes or notifications; the unload callback
             commits the layer (RET, no pending exception) or drops it and truncates the notifications
             (handleException, pkg/vm/vm.go:1974-2003 + unloadContext 1883-1912).
-     ref:   always snapshots.
+     ref:   always snapshots; an invocation is committed iff no exception is pending when its context is unloaded
+            (the VM's rule, identical to the C# reference; it differs from "returned normally" only for calls made
+            while an exception is pending - AllowPending, the corner the abstract level leaves unjudged).
 
    The program is not fixed in advance: the next statement ("label") is chosen nondeterministically at every step,
    so every path of the machine is the execution of one tree of Exec.tla and every tree within the bounds is some
@@ -321,7 +323,7 @@ LayerInv ==
     m.status = "run" => Len(m.layers) = 1 + Cardinality({i \in 1 .. Len(m.ist) : m.ist[i].wrapped})
 
 \* link to the recursive definition of the abstract level
-AbsStart == [st |-> E!EmptyStore, bal |-> [c \in E!Contracts |-> Fund], sink |-> 0, nset |-> N0, notes |-> <<>>,
+AbsStart == [st |-> E!EmptyStore, bal |-> [c \in E!Contracts |-> Fund], sink |-> 0, nset |-> N0, dep |-> {}, ndep |-> 0, notes |-> <<>>,
              pend |-> FALSE, corner |-> FALSE]
 SemInv ==
     m.status \in {"halt", "fault"} =>
